@@ -32,9 +32,9 @@ CLAIMED["C06"] = dict(
    technique="symbolic execution of go/ssa + SMT; draw-receiver footprint; map-order relational run",
    ref="DESIGN.md §5 C06")
 CLAIMED["C12"] = dict(
-   text="Sequential half: (a) inductive step — from every representation state over two keys satisfying the ValueMap invariant (read/dirty/expunged/amended/misses) one operation of each kind (Store, Load, LoadOrStore, LoadAndDelete, Delete, Clear, Range, Range-with-stop, Length) with key in {a,b,c} gives the results of the abstract map and re-establishes the invariant, which covers histories of any length; (b) all operation sequences of length 3 (quick) / 4 (thorough) over 3 keys from the empty map against a Go map.",
-   note="The concurrent half (linearizability under real interleavings) is NOT claimed: schedule exploration is outside what the engine does (sync/atomic are modelled sequentially). misses is a solver symbol; values are distinct pointers. Trusted: INV_map as written in the harness (cross-checked by (b)).",
-   technique="symbolic execution of go/ssa; inductive invariant step + bounded history enumeration",
+   text="Sequential half: (a) inductive step - from every representation state over two keys satisfying the ValueMap invariant (read/dirty/expunged/amended/misses) one operation of each kind (Store, Load, LoadOrStore, LoadAndDelete, Delete, Clear, Range, Range-with-stop, Length) with key in {a,b,c} gives the results of the abstract map and re-establishes the invariant, which covers histories of any length; (b) all operation sequences of length 3 (quick) / 4 (thorough) over 3 keys from the empty map against a Go map. Concurrent half (bounded): two threads on one ValueMap started in any invariant state over two keys, thread A doing 1 (quick) / 2 (thorough) operations and thread B one, from {Store, Load, LoadOrStore, LoadAndDelete, Delete} x {a,b} and {Clear, Length}; the engine interprets both threads and explores every sequentially consistent interleaving whose scheduling points are the mutex and atomic operations, with at most 1 (quick) / 2 (thorough) pre-emptive context switches, each scheduling choice a fork of the path; the recorded history (results, invocation/response times) must be linearizable w.r.t. a Go map, the quiescent contents (Length, Load, Range) must be those of that linearization and the invariant must hold again. Counterexample schedules are re-enacted natively on the real code (valuemap.go overlaid with scheduler hooks at its synchronisation operations).",
+   note="Concurrent half: bounded by thread count (2), operations (<= 3), keys (2) and pre-emptions; interleaving only at synchronisation operations is exhaustive for data-race-free code under sequential consistency - data-race freedom of ValueMap is an assumption here (supported by the C11 footprint and go test -race, not decided), weak-memory effects are outside. Concurrent Range, and Length against two concurrent writers, are not atomic snapshots by design (as sync.Map.Range) and are outside the claim. misses is a solver symbol (sequential) / 0..2 (concurrent); values are distinct pointers. Trusted: INV_map as written in the harness (cross-checked by (b)).",
+   technique="symbolic execution of go/ssa; inductive invariant step + bounded history enumeration + pre-emption-bounded interleaving exploration (scheduling choices as path forks) with a linearizability oracle",
    ref="DESIGN.md §5 C12")
 
 CLAIMED["C16"] = dict(
